@@ -131,6 +131,6 @@ type elemIn struct {
 }
 
 func (e elemIn) elem() field.Element { return alpha.ElemFromLimbs(e.L) }
-func (e elemIn) value() *big.Int      { return ref.FRed(alpha.LimbValue(e.L)) }
+func (e elemIn) value() *big.Int     { return ref.FRed(alpha.LimbValue(e.L)) }
 
 func inOf(e *field.Element) elemIn { return elemIn{alpha.LimbsOf(e)} }
